@@ -5,7 +5,7 @@
 (* fchebyshev_split / func_fit / TraceSet / traceset2xy / xy2traceset.                      *)
 (* root -> seed -> cases so that all TLC workers share the work.                            *)
 EXTENDS TraceSetPoly, TLC
-CONSTANTS Families,     \* subset of {"basis", "sweep", "masks", "zerow", "general", "history", "tset"}
+CONSTANTS Families,     \* subset of {"basis", "sweep", "masks", "zerow", "general", "history", "tset", "tgrid"}
           Dens,         \* denominators of the abscissa grid for the bases
           CoefSel,      \* "full": sweep coefficients from -2..2, else from {-1, 0, 2}
           XIds,         \* abscissa sets used by the fit families
@@ -13,7 +13,8 @@ CONSTANTS Families,     \* subset of {"basis", "sweep", "masks", "zerow", "gener
           HIds,         \* abscissa sets of the call-history family
           Lays,         \* trace-set layouts
           Mod,          \* 1: every case of the masks / zerow / general families; k > 1: every k-th (quick tier sample)
-          TsMod         \* the same for the exact trace-set cases (the inexact ones are always all enumerated)
+          TsMod,        \* the same for the exact trace-set cases (the inexact ones are always all enumerated)
+          GMod          \* the same for the default-grid cases (every (xmin, xmax) pair is always in the sample)
 VARIABLES c, exp
 
 CoefDom == IF CoefSel = "full" THEN -2..2 ELSE {-1, 0, 2}
@@ -223,6 +224,54 @@ TsStep ==
           /\ c' = t
           /\ exp' = TsExpected(t)
 
+(* ------------------------------ default grids --------------------------- *)
+(* The x-range of a trace set as a dimension of its own.  xmin = s/4 and xmax = xmin + d/4 run over every       *)
+(* quarter fraction of both the start and the WIDTH (widths below one pixel, whole numbers of pixels, and every *)
+(* fraction above a whole number), for starts below / at / above 0: the limits of a trace set are real numbers, *)
+(* they are integers only when the positions it was made from happen to be pixel indices.                       *)
+(* One case = a trace set (coefficients, limits, with / without the jump) of which the specification says what  *)
+(* the default grid is (nx points per trace: xmin, xmin + 1, ... not beyond xmax) and the values on it; dpos =  *)
+(* real-valued positions whose extremes are exactly xmin and xmax (the grid and, where the grid stops short of   *)
+(* xmax, xmax itself), dy the values there: a trace set fitted to (dpos, dy) WITHOUT the xmin / xmax keywords    *)
+(* has the same limits, coefficients and default grid.                                                          *)
+GStarts == {4 * a + f : a \in {-3, 0, 2}, f \in 0..3}
+GWidths == {1, 2, 3, 4, 5, 6, 7, 8, 13, 18, 22, 27, 28, 29, 30, 31, 32, 33}
+GJump(jk, xmin) == IF jk = 1 THEN NoJump
+                   ELSE [on |-> TRUE, lo |-> QAdd(xmin, Half), hi |-> QAdd(xmin, Q(3, 2)), val |-> Half]
+GOnes(n) == [i \in 1..n |-> One]
+(* the fitting problem of trace k on positions xp / values yp, limits as the case says (supplied or derived) *)
+GProblem(t, xp, yp, k, given) ==
+  TsProblem([basis |-> t.basis, nc |-> t.nc, xpos |-> xp, ypos |-> yp, w |-> [kk \in 1..Len(xp) |-> GOnes(Len(xp[kk]))],
+             gmin |-> given, gmax |-> given, xmin |-> t.xmin, xmax |-> t.xmax, jump |-> t.jump], k)
+GridCase(b, nc, ci, nt, s, d, jk) ==
+  LET xmin == Q(s, 4)
+      xmax == Q(s + d, 4)
+      t0 == [kind |-> "tgrid", basis |-> b, nc |-> nc, gmin |-> TRUE, gmax |-> TRUE, xmin |-> xmin, xmax |-> xmax,
+             xpos |-> <<>>, jump |-> GJump(jk, xmin), coeff |-> [k \in 1..nt |-> TsCoef(ci, k, nc)]]
+      g == DefaultGrid(xmin, xmax)
+      ends == IF g[Len(g)] = xmax THEN g ELSE Append(g, xmax)
+  IN t0 @@ [dpos |-> [k \in 1..nt |-> ends]]
+GridExpected(t) ==
+  LET g == DefaultGrid(t.xmin, t.xmax)
+      nt == Len(t.coeff)
+      gg == [k \in 1..nt |-> g]
+      yg == TsEval(t, t.coeff, gg, t.jump)
+      dy == TsEval(t, t.coeff, t.dpos, t.jump)
+  IN [nx |-> GridLen(t.xmin, t.xmax), grid |-> g, ygrid |-> yg, ygridign |-> TsEval(t, t.coeff, gg, NoJump), dy |-> dy,
+      \* may the coefficients be demanded back from a fit to the grid (limits supplied) / to dpos (limits derived)?
+      \* (a fit to a single point is outside "enough good points": it is not demanded)
+      fitk |-> Len(g) >= 2 /\ \A k \in 1..nt : WellPosed(GProblem(t, gg, yg, k, TRUE)),
+      fitd |-> \A k \in 1..nt : (Len(t.dpos[k]) >= 2 /\ WellPosed(GProblem(t, t.dpos, dy, k, FALSE)))]
+GBase(b) == CASE b = "legendre" -> 0 [] b = "chebyshev" -> 1 [] b = "poly" -> 2
+GridSeed(b, s) == [kind |-> "seed", fam |-> "tgrid", basis |-> b, s |-> s]
+GridStep ==
+  /\ c.kind = "seed" /\ c.fam = "tgrid"
+  /\ \E d \in GWidths : \E nc \in 1..3 : \E jk \in 1..2 :
+       /\ (c.s + 3 * d + 5 * nc + 7 * jk + 11 * GBase(c.basis)) % GMod = 0
+       /\ LET t == GridCase(c.basis, nc, 1 + (d % 2), 1 + ((c.s + d) % 2), c.s, d, jk) IN
+          /\ c' = t
+          /\ exp' = GridExpected(t)
+
 (* ------------------------------ the graph ------------------------------- *)
 Root == [kind |-> "root"]
 None == [none |-> TRUE]
@@ -238,15 +287,17 @@ RootStep ==
      \/ "history" \in Families /\ \E b \in Bases : \E nc \in 2..3 : \E xid \in HIds : c' = FitSeed("history", b, nc, xid)
      \/ "zerow" \in Families /\ \E b \in Bases : \E nc \in MinM(b)..4 : \E xid \in ZIds : c' = FitSeed("zerow", b, nc, xid)
      \/ "tset" \in Families /\ \E b \in PolyBases : \E l \in Lays : \E nc \in 1..TsMaxNc(l) : c' = TsSeed(b, nc, l)
+     \/ "tgrid" \in Families /\ \E b \in PolyBases : \E s \in GStarts : c' = GridSeed(b, s)
 
 Init == c = Root /\ exp = None
-Next == RootStep \/ BasisStep \/ SweepStep \/ MasksStep \/ ZeroStep \/ GeneralStep \/ HistStep \/ TsStep
+Next == RootStep \/ BasisStep \/ SweepStep \/ MasksStep \/ ZeroStep \/ GeneralStep \/ HistStep \/ TsStep \/ GridStep
 
 IsBasis == c.kind = "basis"
 IsPolyBasis == c.kind = "basis" /\ c.basis \in PolyBases
 IsFit == c.kind = "fit"
 IsTset == c.kind = "tset"
 IsHist == c.kind = "hist"
+IsGrid == c.kind = "tgrid"
 
 (* ---- every number of every case and outcome fits TLC's integers (no NaR anywhere) ---- *)
 ProperAll(ss) == \A k \in 1..Len(ss) : AllProper(ss[k])
@@ -256,6 +307,7 @@ C13_Representable ==
   /\ IsHist => \A k \in 1..Len(c.calls) : (AllProper(exp[k].res) /\ AllProper(exp[k].yfit))
   /\ IsTset => (ProperAll(c.ypos) /\ ProperAll(exp.coeff) /\ ProperAll(exp.yfit) /\ ProperAll(exp.ygrid) /\ ProperAll(exp.yign)
                  /\ AllProper(exp.grid) /\ \A k \in 1..Len(c.xpos) : AllProper(TsXvec(c, k, c.jump)))
+  /\ IsGrid => (AllProper(exp.grid) /\ ProperAll(exp.ygrid) /\ ProperAll(exp.ygridign) /\ ProperAll(exp.dy) /\ ProperAll(c.dpos))
 (* ---- laws of the bases ---- *)
 C13_ThreeDefinitionsAgree == IsPolyBasis => ThreeDefinitionsAgree(c.basis, c.m, c.x)
 C13_EndpointOne == IsPolyBasis => EndpointOne(c.basis, c.m)
@@ -303,4 +355,21 @@ C13_GridLaws == IsTset => (GridLaws(exp.xmin, exp.xmax) /\ exp.grid = DefaultGri
 (* traces together is evaluating each alone (nearly equal rows are still different rows)                         *)
 C13_RowIndependence == IsTset => (RowIndependent(c, exp.coeff, c.xpos, c.jump) /\ exp.yfit = TsEval(c, exp.coeff, c.xpos, c.jump))
 C13_IgnoreJump == (IsTset /\ ~c.jump.on) => exp.yign = exp.yfit
+(* ---- laws of the default grid, for every real-valued x-range ---- *)
+C13_GridLenLaws == IsGrid => /\ GridLenLaws(c.xmin, c.xmax) /\ GridLaws(c.xmin, c.xmax)
+                             /\ exp.grid = DefaultGrid(c.xmin, c.xmax) /\ exp.nx = Len(exp.grid)
+                             /\ \A k \in 1..Len(c.coeff) : Len(exp.ygrid[k]) = exp.nx
+(* the grid does not depend on the jump; without a jump ignoring it changes nothing *)
+C13_GridIgnoreJump == (IsGrid /\ ~c.jump.on) => exp.ygridign = exp.ygrid
+(* limits derived from real-valued positions: a trace set made from dpos (no xmin / xmax keywords) has the limits *)
+(* of the case, hence its default grid and - the values being an exact combination of the basis - its coefficients *)
+C13_GridDerived == IsGrid =>
+   LET d == [c EXCEPT !.gmin = FALSE, !.gmax = FALSE, !.xpos = c.dpos] IN
+   /\ TsXmin(d) = c.xmin /\ TsXmax(d) = c.xmax /\ TsGrid(d) = exp.grid
+   /\ \A k \in 1..Len(c.coeff) :
+        /\ SubSeq(c.dpos[k], 1, exp.nx) = exp.grid /\ SubSeq(exp.dy[k], 1, exp.nx) = exp.ygrid[k]
+        /\ Len(c.dpos[k]) \in {exp.nx, exp.nx + 1}
+        /\ (Len(c.dpos[k]) = exp.nx) <=> (QSub(c.xmax, c.xmin)[2] = 1)
+        /\ exp.fitd => IsExactCombination(GProblem(c, c.dpos, exp.dy, k, FALSE), c.coeff[k])
+        /\ exp.fitk => IsExactCombination(GProblem(c, [kk \in 1..Len(c.coeff) |-> exp.grid], exp.ygrid, k, TRUE), c.coeff[k])
 =============================================================================
